@@ -154,8 +154,8 @@ func (r *dumpReader) node(first string) *DNode {
 		case hasPfx(rest, "[]byte(") && hasSfx(rest, "),"):
 			f.Kind = SBytes
 			v, err := strconv.Unquote(rest[7 : len(rest)-2])
-			if err != nil {
-				r.fail("value is not a valid Go string literal: " + rest)
+			if err != nil || hasBOM(rest) {
+				r.fail("value is not a valid Go string literal")
 			}
 			f.Val = v
 		default:
@@ -209,8 +209,8 @@ func (r *dumpReader) tok() *DTok {
 			t.ID = rest[6 : len(rest)-1]
 		case key == "Val" && hasPfx(rest, "[]byte(") && hasSfx(rest, "),") && !t.HasVal:
 			v, err := strconv.Unquote(rest[7 : len(rest)-2])
-			if err != nil {
-				r.fail("token value is not a valid Go string literal: " + rest)
+			if err != nil || hasBOM(rest) {
+				r.fail("token value is not a valid Go string literal")
 			}
 			t.Val, t.HasVal = v, true
 		case key == "Position" && rest == "&position.Position{" && t.Pos == nil:
@@ -447,9 +447,26 @@ func checkDump(n ast.Vertex, withTokens, withPositions bool, label string) {
 	}
 }
 
+// byte strings appended to every value and token text: plain, invalid UTF-8, quote and
+// backslash with a two-byte rune, a byte order mark, control characters
+var valueSuffixes = []string{"", "\xff\xfea", "\u00e9\"\\", "\xef\xbb\xbf", "\n\x00\x7f"}
+
+func hasBOM(s string) bool {
+	for i := 0; i+2 < len(s); i++ {
+		if s[i] == 0xef && s[i+1] == 0xbb && s[i+2] == 0xbf {
+			return true
+		}
+	}
+	return false
+}
+
 func H_C16_Kind() {
 	k := ParamInt("kind")
+	// the value variants are combined with one fixed slot configuration only
+	synthValueSuffix = valueSuffixes[Choose(len(valueSuffixes))]
+	synthFixed = synthValueSuffix != ""
 	s := BuildSynth(k, 7)
+	synthValueSuffix, synthFixed = "", false
 	withTokens := NondetBool()
 	withPositions := NondetBool()
 	Observe("tokens", B2I(withTokens))
